@@ -3,6 +3,7 @@ import os
 import resource
 import signal
 import sys
+import time
 
 import pexpect
 from pexpect import EOF
@@ -25,7 +26,7 @@ RULE = ('fates = exit codes 0..255 and terminating signals; the child is a puppe
 ASSUMPTIONS = ['/proc/<pid>/stat field 52 of a zombie is its raw wait status',
                'wait() is only issued once /proc shows the child has exited (it would otherwise block by design)']
 REQUIRED = ['observations', 'preludes', 'proc_crosschecks', 'pty_cases', 'popen_cases', 'run_cases', 'signal_fates', 'exit_fates',
-            'repeat_observations']
+            'repeat_observations', 'inflicted_cases']
 
 SIGNALS = [1, 2, 3, 6, 9, 10, 12, 13, 14, 15, 24, 25, 26, 27, 29, 30, 31, 34, 40, 64, 4, 8, 11, 7, 5]
 PATHS = ['isalive', 'wait', 'close', 'terminate', 'eof-isalive', 'eof-wait', 'eof-close', 'read-eof-isalive',
@@ -60,6 +61,10 @@ def plan(tier, seed):
         for p in ('wait', 'eof-wait', 'kill-wait', 'kill-kill-wait'):
             cases.append({'tr': 'popen', 'fate': f, 'path': p})
         cases.append({'tr': 'run', 'fate': f, 'path': 'run', 'u': (f[1] % 2 == 0)})
+    for rep in range(3 if tier == 'quick' else 40):
+        for op in INFLICT:
+            for disp in ('normal', 'ignhup'):
+                cases.append({'tr': 'inflict', 'fate': ('signal', 0), 'path': op, 'disp': disp, 'fast': rep % 2 == 0, 'rep': rep})
     rng.shuffle(cases)
     return [{'cases': cases[a:b], 'shard': i, 'seed': seed} for i, (a, b) in enumerate(split_range(len(cases), 16))]
 
@@ -100,6 +105,130 @@ def judge(c, fate, what, acc, case, check_status=True):
         acc.violation(bad + ':' + case['tr'], desc, case)
         return False
     return True
+
+
+def repeat_observations(c, fate, acc, case, rng):
+    """every order of repeating observations: values never change"""
+    first = snapshot(c)
+    for _ in range(rng.randint(2, 5)):
+        op = rng.choice(['isalive', 'wait', 'close', 'terminate', 'isalive'])
+        acc.count('repeat_observations')
+        try:
+            if op == 'isalive':
+                if c.isalive():
+                    acc.violation('dead-child-reported-alive-later', 'isalive() True on repetition', case)
+                    return False
+            elif op == 'wait':
+                r = c.wait()
+                if fate[0] == 'exit' and r != fate[1]:
+                    acc.violation('wait-returns-wrong-code:pty', 'repeated wait() returned %r' % (r,), case)
+                    return False
+            elif op == 'close':
+                c.close()
+            else:
+                c.terminate()
+        except Exception as e:
+            acc.violation('repeat-observation-raises:' + op, '%s raised %r after the death was observed' % (op, e), case)
+            return False
+        if snapshot(c) != first:
+            acc.violation('status-changed-later', 'after repeated %s: %r -> %r' % (op, first, snapshot(c)), case)
+            return False
+        if not judge(c, fate, 'repeat ' + op, acc, case):
+            return False
+    return True
+
+
+class WaitRecorder(object):
+    """stands in for the os module inside ptyprocess: notes the raw status the kernel hands over when the child is
+    reaped (the ground truth for deaths that pexpect itself inflicts, where no zombie can be inspected beforehand)"""
+
+    def __init__(self, real, pid):
+        self._real = real
+        self._pid = pid
+        self.reaped = []
+
+    def waitpid(self, pid, options):
+        r = self._real.waitpid(pid, options)
+        if r[0] == self._pid and r[0] != 0:
+            self.reaped.append(r[1])
+        return r
+
+    def __getattr__(self, name):
+        return getattr(self._real, name)
+
+
+INFLICT = ['terminate', 'terminate-force', 'close', 'close-noforce', 'kill9-wait', 'kill15-wait', 'kill9-isalive',
+           'kill15-close', 'kill2-terminate', 'with-block']
+
+
+def inflicted_case(case, acc, rng):
+    """the death is caused by pexpect itself (terminate / close / kill on a living child, which may ignore the polite
+    signals): as soon as the call during which the kernel reported the death has returned, the attributes must say so"""
+    import ptyprocess.ptyprocess as pp
+    op, disp = case['path'], case['disp']
+    pup = Puppet(opts=['ignhup'] if disp == 'ignhup' else [])
+    c = None
+    real = pp.os
+    try:
+        c = pexpect.spawn(pup.argv[0], pup.argv[1:], timeout=10)
+        if case.get('fast'):
+            c.delayafterclose = c.delayafterterminate = 0.02
+            c.ptyproc.delayafterclose = c.ptyproc.delayafterterminate = 0.02
+        pid = pup.wait_ready()
+        if pid != c.pid:
+            raise PeerError('pid mismatch')
+        rec = WaitRecorder(real, pid)
+        pp.os = rec
+        acc.count('inflicted_cases')
+        what = op
+        try:
+            if op in ('terminate', 'terminate-force'):
+                r = c.terminate(force=(op == 'terminate-force'))
+                what = '%s -> %r' % (op, r)
+            elif op in ('close', 'close-noforce'):
+                c.close(force=(op == 'close'))
+            elif op == 'with-block':
+                with c:
+                    pass
+            else:
+                sig = int(op[4:op.index('-')])
+                c.kill(sig)
+                then = op[op.index('-') + 1:]
+                if then == 'wait':
+                    c.wait()
+                elif then == 'isalive':
+                    t0 = time.time()
+                    while c.isalive() and time.time() - t0 < 10:
+                        time.sleep(0.005)
+                elif then == 'close':
+                    c.close()
+                else:
+                    c.terminate(force=True)
+        except pexpect.ExceptionPexpect as e:
+            what = '%s raised %s' % (op, str(e)[:60])
+        if not rec.reaped:
+            # the child was not reaped during the operation (it ignored the signals that were sent): nothing to judge
+            acc.count('inflicted_not_reaped')
+            if c.terminated or c.exitstatus is not None or c.signalstatus is not None:
+                acc.violation('status-set-while-running', 'after %s the kernel reported no death to pexpect, but terminated=%r '
+                              'exitstatus=%r signalstatus=%r' % (what, c.terminated, c.exitstatus, c.signalstatus), case)
+            return
+        fate = decode(rec.reaped[-1])
+        acc.seen('list:inflicted_fates', '%s/%s -> %s %d' % (disp, op, fate[0], fate[1]))
+        case['fate'] = fate
+        if not judge(c, fate, what, acc, case):
+            return
+        if not repeat_observations(c, fate, acc, case, rng):
+            return
+        acc.nontrivial('c09', {k: case[k] for k in ('tr', 'path', 'disp', 'fast')})
+    finally:
+        pp.os = real
+        try:
+            if c is not None:
+                c.close(force=True)
+        except Exception:
+            pass
+        pup.cleanup()
 
 
 def pty_case(case, acc, rng):
@@ -203,33 +332,8 @@ def pty_case(case, acc, rng):
                 return
         if not ok:
             return
-        # every order of repeating observations: values never change
-        first = snapshot(c)
-        for _ in range(rng.randint(2, 5)):
-            op = rng.choice(['isalive', 'wait', 'close', 'terminate', 'isalive'])
-            acc.count('repeat_observations')
-            try:
-                if op == 'isalive':
-                    if c.isalive():
-                        acc.violation('dead-child-reported-alive-later', 'isalive() True on repetition', case)
-                        return
-                elif op == 'wait':
-                    r = c.wait()
-                    if fate[0] == 'exit' and r != fate[1]:
-                        acc.violation('wait-returns-wrong-code:pty', 'repeated wait() returned %r' % (r,), case)
-                        return
-                elif op == 'close':
-                    c.close()
-                else:
-                    c.terminate()
-            except Exception as e:
-                acc.violation('repeat-observation-raises:' + op, '%s raised %r after the death was observed' % (op, e), case)
-                return
-            if snapshot(c) != first:
-                acc.violation('status-changed-later', 'after repeated %s: %r -> %r' % (op, first, snapshot(c)), case)
-                return
-            if not judge(c, fate, 'repeat ' + op, acc, case):
-                return
+        if not repeat_observations(c, fate, acc, case, rng):
+            return
         if fate != ('exit', 0) and list(fate) != ['exit', 0]:
             acc.nontrivial('c09', case)
     finally:
@@ -325,13 +429,17 @@ def run_case(case, acc):
 def one(case, acc, rng):
     acc.case()
     case['fate'] = tuple(case['fate'])
-    if case['fate'][0] == 'exit':
+    if case['tr'] == 'inflict':
+        pass
+    elif case['fate'][0] == 'exit':
         acc.count('exit_fates')
     else:
         acc.count('signal_fates')
     try:
         with watchdog(60):
-            if case['tr'] == 'pty':
+            if case['tr'] == 'inflict':
+                inflicted_case(case, acc, rng)
+            elif case['tr'] == 'pty':
                 pty_case(case, acc, rng)
             elif case['tr'] == 'popen':
                 popen_case(case, acc, rng)
